@@ -96,32 +96,41 @@ def F(N, lx, pieces):
     return tot
 
 
-def _integrate(lx, pieces, r, o, a, b, order):
+def _composite(edges, order):
+    """nodes and weights of a composite Gauss-Legendre rule on consecutive intervals."""
     x, w = _gl(order)
-    a, b = LD(a), LD(b)
-    u = (b - a) / 2 * x + (b + a) / 2
-    n, dn = talbot(u, r, o)
-    val = np.sum(w * F(n, lx, pieces) * dn) * (b - a) / 2
-    return float(val.imag / PI)
-
-
-def truncated(lx, pieces, r, o, cut=0.05):
-    """(1/pi) Im int_{1/2}^{1-cut}: what a perfect quadrature of the solver's integrand returns."""
-    if lx >= max(p[1] for p in pieces):
-        return 0.0
-    edges = np.linspace(0.5, 1.0 - cut, 5)
-    return sum(_integrate(lx, pieces, r, o, a, b, 6) for a, b in zip(edges, edges[1:]))
-
-
-def remainder(lx, pieces, r, o, cut=0.05):
-    """(1/pi) Im int_{1-cut}^{1}: the part of the inversion integral the solver's contour cut leaves out."""
-    if lx >= max(p[1] for p in pieces):
-        return 0.0
-    tot = 0.0
-    edges = [1.0 - cut * 0.5**m for m in range(0, 46)]
+    us, ws = [], []
     for a, b in zip(edges, edges[1:]):
-        tot += _integrate(lx, pieces, r, o, a, b, 5)
-    return tot
+        a, b = LD(a), LD(b)
+        us.append((b - a) / 2 * x + (b + a) / 2)
+        ws.append(w * (b - a) / 2)
+    return np.concatenate(us), np.concatenate(ws)
+
+
+class Contour:
+    """Talbot contour with parameters (r, o), cut at u = 1 - cut.
+
+    truncated(lx, pieces): (1/pi) Im int_{1/2}^{1-cut} -- what a perfect quadrature of the solver's integrand returns
+    remainder(lx, pieces): (1/pi) Im int_{1-cut}^{1}   -- what the solver's contour cut leaves out
+    """
+
+    def __init__(self, r, o, cut=0.05):
+        ut, wt = _composite(np.linspace(0.5, 1.0 - cut, 5), 6)  # 4 x 96 nodes
+        ur, wr = _composite([1.0 - cut * 0.5**m for m in range(0, 46)], 4)  # 45 dyadic intervals x 24 nodes
+        self.nt, dnt = talbot(ut, r, o)
+        self.nr, dnr = talbot(ur, r, o)
+        self.wt = wt * dnt
+        self.wr = wr * dnr
+
+    def truncated(self, lx, pieces):
+        if lx >= max(p[1] for p in pieces):
+            return 0.0
+        return float(np.sum(self.wt * F(self.nt, lx, pieces)).imag / PI)
+
+    def remainder(self, lx, pieces):
+        if lx >= max(p[1] for p in pieces):
+            return 0.0
+        return float(np.sum(self.wr * F(self.nr, lx, pieces)).imag / PI)
 
 
 def piece_value(lx, pieces):
@@ -130,3 +139,4 @@ def piece_value(lx, pieces):
         if lmin <= lx < lmax:
             return float(_polyval(LD(lx), [LD(a) for a in coefs]))
     return 0.0
+
